@@ -44,6 +44,7 @@ type Params struct {
 	Icpt       int
 	IcptPanic  int // >0: the consumer interceptor at this (1-based) position panics after counting itself
 	CloseAny   bool
+	AsyncOnly  bool // closeany: consumer and client are closed right after AsyncClose of the partition consumers
 	Move       bool
 	Append     bool
 	AppendPart int   // partition that receives the late record (app=k: partition k-1)
@@ -66,7 +67,7 @@ func Parse(v url.Values) (*Params, error) {
 	p := &Params{N: atoi(v, "n", 3), Cuts: atoi(v, "cuts", 0), Codec: atoi(v, "codec", 1), Ctl: atoi(v, "ctl", 0) == 1,
 		Start: v.Get("start"), FetchSz: atoi(v, "fsz", 0), FetchMax: atoi(v, "fmax", 0), BPF: atoi(v, "bpf", 0), Buf: atoi(v, "buf", 0), NParts: atoi(v, "np", 1),
 		NBrokers: atoi(v, "nb", 1), Slow: atoi(v, "slow", 0) == 1, RC: v.Get("iso") == "rc", AbOrder: atoi(v, "abo", 0), Icpt: atoi(v, "icpt", 0), IcptPanic: atoi(v, "icptpanic", 0),
-		CloseAny: atoi(v, "closeany", 0) == 1, Move: atoi(v, "move", 0) == 1, Append: atoi(v, "app", 0) >= 1, AppendPart: max(atoi(v, "app", 0)-1, 0) % 2, AppendMode: atoi(v, "app", 0), Base: int64(atoi(v, "base", 0))}
+		CloseAny: atoi(v, "closeany", 0) == 1, AsyncOnly: atoi(v, "aclose", 0) == 1, Move: atoi(v, "move", 0) == 1, Append: atoi(v, "app", 0) >= 1, AppendPart: max(atoi(v, "app", 0)-1, 0) % 2, AppendMode: atoi(v, "app", 0), Base: int64(atoi(v, "base", 0))}
 	if p.Start == "" {
 		p.Start = "old"
 	}
@@ -745,11 +746,21 @@ func (r *rig) doClose() {
 			}(st)
 			st.pc.AsyncClose()
 		}
-		for _, st := range r.pcs {
-			_ = st.pc.Close() // second close of a partition consumer must be harmless
+		if r.p.AsyncOnly {
+			// the application asks the partition consumers to shut down (and keeps draining them) and closes consumer and
+			// client right away, without waiting for the partition consumers to finish
+			_ = r.cons.Close()
+			_ = r.client.Close()
+			for _, st := range r.pcs {
+				_ = st.pc.Close()
+			}
+		} else {
+			for _, st := range r.pcs {
+				_ = st.pc.Close() // second close of a partition consumer must be harmless
+			}
+			_ = r.cons.Close()
+			_ = r.client.Close() // closing the client twice must be harmless
 		}
-		_ = r.cons.Close()
-		_ = r.client.Close() // closing the client twice must be harmless
 		r.mu.Lock()
 		r.closed = true
 		r.mu.Unlock()
